@@ -30,6 +30,12 @@ def _make(c):
     rng = np.random.default_rng(h + 7 * w)
     n = 1 if c["layout"] == "YX" else ns
     base = (rng.integers(1, 100, size=(n, h, w)) + 10 * np.arange(n)[:, None, None]).astype(dt) if dt.kind != "f" else (rng.random((n, h, w)) * 100 + 1000 * np.arange(n)[:, None, None]).astype(dt)
+    if c.get("pat", "random") == "uniform_blocks" or (c.get("pat") is None and (h + w + ns) % 3 == 0):
+        b = 32
+        base[:, :b, :b] = 0                      # a whole block of valid zeros (all bands)
+        base[:, b:2 * b, b:2 * b] = 0
+        base[:, 2 * b:3 * b, :b] = c["nodata"][0] if c["nodata"] else 55
+        base[:, :b, b:2 * b] = 9
     attrs = {"nodata": c["nodata"][0]} if c["nodata"] else {}
     if c["layout"] == "YX":
         xx = wrap_xr(base[0], gb, **attrs)
